@@ -49,6 +49,16 @@ def main(argv):
 
     if cmd == "replay":
         path = argv[1]
+        with open(path) as fh:
+            want_hash = json.load(fh).get("hashseed")
+        if want_hash is not None and str(want_hash) != os.environ.get("PYTHONHASHSEED") \
+                and not os.environ.get("HEXSIM_REPLAY_REEXEC"):
+            # the file was found under another string-hash seed: replay it in an interpreter started with it
+            import subprocess
+
+            env = dict(os.environ, HEXSIM_HASHSEED=str(want_hash), HEXSIM_REPLAY_REEXEC="1")
+            env.pop("PYTHONHASHSEED", None)
+            return subprocess.run([os.path.join(VERIF, "check"), "replay", path], env=env).returncode
         v, recorded = runner.replay_file(path)
         print(json.dumps({"status": v.status, "signature": v.signature, "op_index": v.op_index,
                           "recorded_signature": recorded.get("signature"),
